@@ -5,6 +5,7 @@ import PnaVerif.Model.Canon
 import PnaVerif.Model.Toy
 import PnaVerif.Model.Pipeline
 import PnaVerif.Model.Split
+import PnaVerif.Model.Cli.Wire
 /-
   Line-protocol driver: one request per line on stdin, one canonical answer per line on stdout.
   Imports model files only (no Mathlib) so that it links as a native executable.
@@ -206,6 +207,7 @@ def handle (line : String) : String :=
       | .error e => errS e
       | .panic s => "panic " ++ s
     | _, _ => "bad-op"
+  | "transform" :: rest => Cli.Wire.handleTransform rest
   | ["archive.read.stream", h] =>
     match ofHex h with
     | some b => Canon.readS (readArchiveStream b)
